@@ -107,8 +107,19 @@ NgSetupResponse ==
          IeR(86, 1, "RelativeAMFCapacity", [Value |-> [n |-> 255]]),
          IeR(80, 0, "PLMNSupportList", [List |-> << [PLMNIdentity |-> [Value |-> CfgPlmn],
                                                      SliceSupportList |-> [List |-> << [SNSSAI |-> SnssaiV] >>]] >>]) >>)
+\* the plain form and, for a UE whose context exists, the form with the optional IEs of TS 38.413 9.2.5.2 (RAN paging priority before
+\* the NAS-PDU; mobility restriction list, index to RAT/frequency selection priority, UE-AMBR, allowed NSSAI behind it)
 DlNasTransport(c, nas) ==
    NgapPdu(0, Proc.DownlinkNASTransport, 1, "DownlinkNASTransport", IdIes(c) \o << IeR(38, 0, "NASPDU", [Value |-> nas]) >>)
+DlNasTransportOpt(c, ch, nas) ==
+   IF ch.optIEs < 2 THEN DlNasTransport(c, nas)
+   ELSE NgapPdu(0, Proc.DownlinkNASTransport, 1, "DownlinkNASTransport",
+           IdIes(c) \o << IeR(83, 1, "RANPagingPriority", [Value |-> [n |-> 256]]),
+                          IeR(38, 0, "NASPDU", [Value |-> nas]),
+                          IeR(36, 1, "MobilityRestrictionList", [ServingPLMN |-> [Value |-> CfgPlmn]]),
+                          IeR(31, 1, "IndexToRFSP", [Value |-> [n |-> 256]]),
+                          IeR(110, 1, "UEAggregateMaximumBitRate", [UEAggregateMaximumBitRateDL |-> [Value |-> ch.ambrDl], UEAggregateMaximumBitRateUL |-> [Value |-> ch.ambrUl]]),
+                          IeR(0, 0, "AllowedNSSAI", [List |-> << [SNSSAI |-> SnssaiV] >>]) >>)
 UeSecCapV == [NRencryptionAlgorithms |-> [Value |-> Bits(<<224, 0>>, 16)], NRintegrityProtectionAlgorithms |-> [Value |-> Bits(<<224, 0>>, 16)],
               EUTRAencryptionAlgorithms |-> [Value |-> Bits(<<224, 0>>, 16)], EUTRAintegrityProtectionAlgorithms |-> [Value |-> Bits(<<224, 0>>, 16)]]
 \* PDU session resource setup request transfer: aggregate bit rate, UL tunnel, type, one QoS flow
@@ -149,6 +160,11 @@ InitialContextSetupRequest(c, ch, nas, withSession) ==
       << IeR(0, 0, "AllowedNSSAI", [List |-> << [SNSSAI |-> SnssaiV] >>]),
          IeR(119, 0, "UESecurityCapabilities", UeSecCapV),
          IeR(94, 0, "SecurityKey", [Value |-> Bits(c.kamf, 256)]) >> \o
+      \* optional IEs a conformant AMF may add (TS 38.413 9.2.2.1), in table order
+      (IF ch.optIEs >= 2 THEN << IeR(36, 1, "MobilityRestrictionList", [ServingPLMN |-> [Value |-> CfgPlmn]]),
+                                 IeR(117, 1, "UERadioCapability", [Value |-> <<4, 1, 2, 3>>]),
+                                 IeR(31, 1, "IndexToRFSP", [Value |-> [n |-> 7]]),
+                                 IeR(34, 1, "MaskedIMEISV", [Value |-> Bits(<<53, 110, 16, 7, 255, 255, 0, 1>>, 64)]) >> ELSE <<>>) \o
       (IF Len(nas) > 0 THEN << IeR(38, 1, "NASPDU", [Value |-> nas]) >> ELSE <<>>))
 ReleaseCommandTransfer == PerEncode(Build(NgapSchema.transfers["PDUSessionResourceReleaseCommandTransfer"], [Cause |-> [alt |-> "Nas", v |-> [Value |-> 0]]]))
 PduReleaseCommand(c, nas) ==
@@ -281,7 +297,7 @@ HandleUeNasO(amf, i, t, ngapMsg, o) ==
                LET res == NasOpt(m, 45)
                    smc == DlProtect([c1.sec EXCEPT !.dl = 0], NasEncode(NasSmc(ch, c.capab)), 3)
                    c2 == [c1 EXCEPT !.st = "smcSent", !.sec = smc.sec] IN
-               Res(SetCtx(amf, i, c2), << NgapEncode(DlNasTransport(c2, smc.bytes)) >>,
+               Res(SetCtx(amf, i, c2), << NgapEncode(DlNasTransportOpt(c2, ch, smc.bytes)) >>,
                    base \cup o.complaints \cup stMust({"authSent"}) \cup hdrMust({0})
                    \cup (IF res.has /\ res.v = c.xres THEN {} ELSE {who \o ": RES* " \o ToString(res.v) \o " differs from XRES* " \o ToString(c.xres)}),
                    m.name)
@@ -293,7 +309,7 @@ HandleUeNasO(amf, i, t, ngapMsg, o) ==
           [] m.name = "RegistrationComplete" ->
                LET cu == DlProtect(c1.sec, NasEncode(NasCfgUpdate(ch)), 2)
                    c2 == [c1 EXCEPT !.st = "registered", !.sec = cu.sec] IN
-               Res(SetCtx(amf, i, c2), << NgapEncode(DlNasTransport(c2, cu.bytes)) >>,
+               Res(SetCtx(amf, i, c2), << NgapEncode(DlNasTransportOpt(c2, ch, cu.bytes)) >>,
                    base \cup o.complaints \cup stMust({"icsDone"}) \cup hdrMust({2}), m.name)
           [] m.name = "ULNASTransport" ->
                LET psiIe == NasOpt(m, 18)
